@@ -251,7 +251,13 @@ func (r *Replicas) Apply(e *Env, s *State, op Op) []Finding {
 		for _, c := range []byte(fmt.Sprintf("%d|%s", s.Depth, op.Name)) {
 			h = (h ^ uint32(c)) * 16777619
 		}
-		devs = []Deviation{Deviations[int(h)%len(Deviations)]}
+		// the restarted node (no InitChain, no fixture run in the process, shifted clock, reordered maps) is the
+		// strongest single deviation: it takes every second transition, the others share the rest
+		if k := int(h % 8); k < 4 {
+			devs = []Deviation{Deviations[0]}
+		} else {
+			devs = []Deviation{Deviations[1+(k-4)%(len(Deviations)-1)]}
+		}
 	}
 	var reps []replicaResult
 	if envseam.Controlled {
